@@ -117,6 +117,19 @@ def keyword_text_docs():
                 out.append(('act', c.replace('%s', line)))
     return out
 
+# footnote shapes: nested notes, a paragraph that is nothing but a reference, several references in one paragraph, notes whose
+# text equals their host's text, notes in list items / cells / headings of attachments (each must round-trip exactly)
+FOOTNOTE_SHAPES = [
+    'SEC 1 - Heading\n\n  {{FOOTNOTE 1}}\n\n  FOOTNOTE 1\n    see also {{FOOTNOTE 2}}\n\n    FOOTNOTE 2\n      the nested footnote\n\n  some other text\n',
+    'SEC 1\n  {{FOOTNOTE a}}\n  FOOTNOTE a\n    {{FOOTNOTE b}}\n    FOOTNOTE b\n      {{FOOTNOTE c}}\n      FOOTNOTE c\n        deepest\n',
+    'SEC 1\n  same text{{FOOTNOTE 1}}\n  FOOTNOTE 1\n    same text\n  same text\n',
+    'SEC 1\n  a{{FOOTNOTE 1}} b{{FOOTNOTE 2}} c{{FOOTNOTE 3}}\n  FOOTNOTE 1\n    one\n  FOOTNOTE 2\n    two\n    more two\n  FOOTNOTE 3\n    ITEMS\n      ITEM (a)\n        in a note\n',
+    'SEC 1\n  ITEMS\n    ITEM (a)\n      x{{FOOTNOTE 1}}\n      FOOTNOTE 1\n        {{FOOTNOTE 2}}\n        FOOTNOTE 2\n          y\n',
+    'SEC 1\n  TABLE\n    TR\n      TC\n        {{FOOTNOTE *}}\n        FOOTNOTE *\n          {{FOOTNOTE **}}\n          FOOTNOTE **\n            cell\n',
+    'x\nSCHEDULE h\n  {{FOOTNOTE 1}}\n  FOOTNOTE 1\n    {{FOOTNOTE 1}}\n    FOOTNOTE 1\n      same marker nested\n',
+    'SEC 1\n  **{{FOOTNOTE 1}}**\n  FOOTNOTE 1\n    //{{FOOTNOTE 2}}//\n    FOOTNOTE 2\n      z\n',
+]
+
 def make(seed, root, depth):
     rng = random.Random(seed)
     return absdoc.Gen(rng, footnotes=True, attrs=True, max_depth=depth).document(root)
@@ -173,7 +186,7 @@ def search(ctx, budget):
         ctx.evaluations += 1; ctx.count('witness_' + r[0])
         if r[0] == 'bad':
             ctx.failures.append(({'stage': 'witness', 'family': fam, 'root': root, 'text': text}, r[1]))
-    kd = keyword_text_docs()
+    kd = keyword_text_docs() + [(r, t) for t in FOOTNOTE_SHAPES for r in ('act', 'doc')]
     for (root, text), r in zip(kd, impl.pmap(_wjob, kd, chunk=16)):
         ctx.evaluations += 1; ctx.count('keyword_text_' + r[0])
         if r[0] == 'bad':
